@@ -353,7 +353,7 @@ class RandGen:
                         'if_must_else', 'list_must', 'raise']
         if self.switches:
             ops += ['state', 'state', 'state', 'enable', 'disable']
-        if IFAPPLY_ENABLED and not self.core_only:
+        if IFAPPLY_ENABLED and not self.core_only and RACT_MODE[0] != 'off':
             ops += ['if_apply', 'apply']
         if consuming:
             ops = [o for o in ops if o not in ('until', 'star', 'opt', 'at', 'not_at', 'rep_opt', 'strict', 'partial', 'star_partial',
@@ -536,3 +536,52 @@ def attach_actions(rng: random.Random, g: Grammar, mode: str):
                 g.acts[nid] = ActSpec(kind, True, rng.choice([2, 3, 5]))
             else:
                 g.acts[nid] = ActSpec(kind)
+
+
+# ---------------------------------------------------------------- every atom in every simple context
+
+ZOO_ALPHA = [48, 49, 50, 53, 54, 97, 65, 10, 13, 0xC3, 0xA9, 33]     # 0 1 2 5 6 a A \n \r é(2 bytes) !
+
+
+def atom_zoo():
+    """(name, rule) for every leaf rule the model has an atom for: the ascii / utf8 / contrib leaves with parameters chosen so that
+    each both matches and fails on strings over ZOO_ALPHA (several digits for maximum_rule: match, overflow after one or two digits)."""
+    from .gram import X
+    return [
+        ('any', P('any')), ('one', P('one', C(49))), ('one2', P('one', C(49), C(97))), ('not_one', P('not_one', C(49))),
+        ('range', P('range', C(48), C(53))), ('not_range', P('not_range', C(48), C(53))),
+        ('ranges', P('ranges', C(48), C(50), C(97), C(98), C(54))), ('string', P('string', C(49), C(50))), ('string3', P('string', C(49), C(50), C(53))),
+        ('istring', P('istring', C(97), C(49))), ('bytes2', P('bytes', N(2))), ('require2', P('require', N(2))),
+        ('eof', P('eof')), ('bof', P('bof')), ('bol', P('bol')), ('eol', P('eol')), ('eolf', P('eolf')),
+        ('success', P('success')), ('failure', P('failure')), ('everything', P('everything')),
+        ('u8range', P('utf8::range', N(0x80), N(0x7FF))), ('u8not_range', P('utf8::not_range', N(0x30), N(0x39))),
+        ('max8', P('maximum_rule', X('std::uint8_t'))), ('max25', P('maximum_rule', X('std::uint8_t'), N(25))),
+        ('max16', P('maximum_rule', X('std::uint16_t'))), ('max1', P('maximum_rule', X('std::uint8_t'), N(1))),
+        ('rom12', P('rep_one_min_max', N(1), N(2), C(49))), ('rom23', P('rep_one_min_max', N(2), N(3), C(49))),
+        ('digit', P('digit')), ('alpha', P('alpha')), ('alnum', P('alnum')), ('xdigit', P('xdigit')), ('blank', P('blank')),
+        ('space', P('space')), ('nul', P('nul')), ('lower', P('lower')), ('upper', P('upper')), ('odigit', P('odigit')),
+        ('print', P('print')), ('seven', P('seven')), ('ellipsis', P('ellipsis')),
+        ('two', P('two', C(49))), ('three', P('three', C(49))), ('identifier', P('identifier')), ('keyword', P('keyword', C(97), C(49))),
+        ('pred_and', P('predicates_and', P('range', C(48), C(57)), P('not_one', C(53)))),
+        ('pred_or', P('predicates_or', P('one', C(97)), P('range', C(48), C(50)))),
+        ('pred_not', P('predicate_not', P('range', C(48), C(53)))),
+    ]
+
+
+def zoo_grammars(gid_prefix: str, per_grammar: int = 4, exclude=()):
+    """Grammars with `per_grammar` atoms each; every atom X as: X, seq< X, 'a' >, seq< '1', X >, sor< seq< X, '!' >, any >, opt< X >,
+    at< X >, not_at< X >, seq< X, X >, star< seq< X, 'a' > >."""
+    zoo = [z for z in atom_zoo() if z[0] not in exclude]
+    out = []
+    for gi in range(0, len(zoo), per_grammar):
+        g = Grammar(f"{gid_prefix}{gi // per_grammar}")
+        roots = []
+        names = []
+        for name, x in zoo[gi:gi + per_grammar]:
+            names.append(name)
+            for t in (x, P('seq', x, P('one', C(97))), P('seq', P('one', C(49)), x), P('sor', P('seq', x, P('one', C(33))), P('any')),
+                      P('opt', x), P('at', x), P('not_at', x), P('seq', x, x), P('star', P('seq', x, P('one', C(97))))):
+                roots.append(g.rule(t).id)
+        g.resolve()
+        out.append((g, roots, {'kind': 'atoms', 'atoms': names}))
+    return out
